@@ -159,6 +159,13 @@ def verify_contract(ex: Exec, c: api.Contract):
             ex.oblige("raises", z3.Not(truthy(ex.spec_eval(c, "raises_when", entry))), finfo.node.lineno,
                       note="returned normally although the contract says it must raise", label="raises.must")
         if c.returns is not None:
+            from .ty import VEnum as _VEnum, Str as _StrT, Opt as _OptT, VOpt as _VOptV
+            _inner = ret.val if isinstance(ret, _VOptV) else ret
+            if (c.returns is _StrT or (isinstance(c.returns, _OptT) and c.returns.inner is _StrT)) and isinstance(_inner, _VEnum):
+                # the contract declares a plain str; an Enum member is a different object even when it compares equal:
+                # str(), format() and f-strings of it differ ('Class.MEMBER'), so callers that normalise with str() break
+                ex.oblige("post", z3.BoolVal(False), finfo.node.lineno, label="post.returns_plain_str",
+                          note=f"returns a member of {_inner.enum_ty.name} where the contract declares a plain str")
             ret = ex.adapt_arg(ret, c.returns)
         for n in free:
             params[n] = outer.env[n]  # current binding of the (possibly rebound) free variables
